@@ -25,7 +25,9 @@ def gen_geom(rng, small=True):
         nblocks = rng.choice([1, 2, 3, 5, 8, 17, 40]) if not wide else rng.choice([17, 40])
         tail = rng.choice([0, 1, 7, (1 << bl[3]) - 1])
         size = max(1, nblocks * (1 << bl[3]) - tail)
-        return dict(bl=bl, db=db, size=size, ext=rng.random() < 0.35, rb=rng.random() < 0.8)
+        # DPFS level 3 usually is a whole number of its blocks; the format does not require it (the second copy starts at `size`)
+        tail = rng.choice([1, 4, (1 << db[-1]) // 2, (1 << db[-1]) - 1]) if rng.random() < 0.3 else 0
+        return dict(bl=bl, db=db, size=size, ext=rng.random() < 0.35, rb=rng.random() < 0.8, lv3_tail=tail)
     return dict(kind=kind, parts=[one() for _ in range(nparts)], active=rng.randrange(2), slack=rng.random() < 0.7, seed=rng.randrange(1 << 30))
 
 
@@ -35,10 +37,11 @@ def build(geom):
     kw = dict(rng=rng, active_table=geom['active'], slack=geom['slack'])
     if geom['kind'] == 'diff':
         p = geom['parts'][0]
-        img, info = SV.build_diff(payloads[0], block_log2=p['bl'], dpfs_block_log2=p['db'], external_lv4=p['ext'], random_bitmaps=p['rb'], **kw)
+        img, info = SV.build_diff(payloads[0], block_log2=p['bl'], dpfs_block_log2=p['db'], external_lv4=p['ext'], random_bitmaps=p['rb'], lv3_tail=p.get('lv3_tail', 0), **kw)
     else:
         img, info = SV.build_disa(payloads, block_log2=[p['bl'] for p in geom['parts']], dpfs_block_log2=[p['db'] for p in geom['parts']],
-                                  external_lv4=[p['ext'] for p in geom['parts']], random_bitmaps=[p['rb'] for p in geom['parts']], **kw)
+                                  external_lv4=[p['ext'] for p in geom['parts']], random_bitmaps=[p['rb'] for p in geom['parts']],
+                                  lv3_tail=[p.get('lv3_tail', 0) for p in geom['parts']], **kw)
     return img, info, payloads
 
 
